@@ -59,14 +59,20 @@ def rand_indent(rng, maxi=4):
     return "".join(rng.choice(WS) for _ in range(k))
 
 
-def rand_plain_line(rng, delims):
+# what may trail a line that came out of a list (never produced by splitting a text at its line ends): blanks, tabs, a
+# stray carriage return of a CRLF source, other `str.isspace` characters
+TRAILERS = [" ", "  ", "\t", "\r", " \r", "\u00a0", "\x0c", " \t "]
+
+
+def rand_plain_line(rng, delims, trail=0.0):
     kind = rng.random()
     ind = rand_indent(rng)
+    tr = rng.choice(TRAILERS) if trail and rng.random() < trail else ""
     if kind < 0.62:
-        return ind + rng.choice(WORDS)
+        return ind + rng.choice(WORDS) + tr
     if kind < 0.77:
         d = rng.choice((delims or ["!"]) + ["!", "#"])
-        return ind + d + rng.choice(["", " comment", "x"])
+        return ind + d + rng.choice(["", " comment", "x"]) + tr
     if kind < 0.87:
         return ""
     return "".join(rng.choice(WS) for _ in range(rng.choice([1, 1, 2, 3])))
@@ -124,7 +130,7 @@ def rand_macro_block(rng):
     return [start] + body
 
 
-def rand_config(rng, maxlen=12, banners=True, delims=None):
+def rand_config(rng, maxlen=12, banners=True, delims=None, trail=0.0):
     lines = []
     target = rng.choice([0, 1, 2, 3, 4, 6, 8, maxlen])
     while len(lines) < target:
@@ -134,7 +140,7 @@ def rand_config(rng, maxlen=12, banners=True, delims=None):
         elif banners and r < 0.18:
             lines += rand_macro_block(rng)
         else:
-            lines.append(rand_plain_line(rng, delims))
+            lines.append(rand_plain_line(rng, delims, trail))
     return lines[: maxlen + 6]
 
 
